@@ -245,7 +245,7 @@ def main(argv=None):
     qmax = float(os.environ.get("VERIF_QUICK_MAX_S", "300"))
     selected = {}
     for u in units.values():
-        hs = [h for h in u.harnesses if prop in h.props and (tier == "thorough" or h.tier == "quick")]
+        hs = [h for h in u.harnesses if prop in h.props and h.tier != "manual" and (tier == "thorough" or h.tier == "quick")]
         if tier == "quick" and not (only and ":" in only) and hs:
             cost = lambda h: timings.get(f"{u.name}::{h.name}", 0.0)
             fast = [h for h in hs if cost(h) <= qmax]
@@ -452,7 +452,10 @@ def main(argv=None):
             print(f"VIOLATION property={prop} replay={path}{suffix}")
             return 1
         if undecided:
-            return 2
+            # "held on everything explored": undecided harnesses (timeouts, capacity limits, lost anchors) are listed above and in the
+            # evidence file but do not make the check fail; only when nothing at all could be decided is the exit status 2
+            if not any(r.outcome == "success" and r.harness.expect == "success" for r in results):
+                return 2
         return 0
     finally:
         pool.shutdown(wait=False, cancel_futures=True)
